@@ -86,22 +86,50 @@ func runC01(p *Program, r *Result) {
 			got := short(etb.Term(in[0].Store.Val).String())
 			want := specRecipe(r, "Encrypt.Recipients.append")
 			if got != want {
-				ok, detail = false, "appended value is "+got+"\n   want "+want
+				// the same list accumulated in a local first and assigned to the field afterwards
+				ge, ok1 := accumulatedElement(etb.Term(in[0].Store.Val))
+				if i := strings.Index(want, ", List("); !ok1 || i < 0 || "List("+short(ge)+")" != strings.TrimSuffix(want[i+2:], ")") {
+					ok, detail = false, "appended value is "+got+"\n   want "+want
+				}
 			}
 		}
 		if ok {
+			// where the element is appended: the store itself, or (list accumulated in a local and
+			// assigned afterwards) the one append of header stanzas in Encrypt
+			site := in[0].Store.Block()
+			if c, isCall := in[0].Store.Val.(*ssa.Call); !isCall || !isBuiltin(&c.Call, "append") {
+				var apps []*ssa.Call
+				for _, ci := range callsIn(enc) {
+					if cc, ok := ci.(*ssa.Call); ok && isBuiltin(&cc.Call, "append") && typeString(cc.Type()) == "[]*"+pkgFormat+".Stanza" {
+						apps = append(apps, cc)
+					}
+				}
+				if len(apps) == 1 {
+					site = apps[0].Block()
+				}
+			}
 			outer := loopOver(enc, func(v ssa.Value) bool { return v == enc.Params[1] })
+			if len(outer) > 1 {
+				// several loops over the recipients (an extra pre-check): the one around the append
+				var w []*RangeLoop
+				for _, l := range outer {
+					if l.inLoop(site) {
+						w = append(w, l)
+					}
+				}
+				outer = w
+			}
 			// the stanza loop: the range loop around the append other than the recipient loop
 			// (what it ranges over is part of the appended value, compared with the table above)
 			var inner []*RangeLoop
 			for _, l := range rangeLoops(enc) {
-				if len(outer) == 1 && l.Header != outer[0].Header && l.inLoop(in[0].Store.Block()) {
+				if len(outer) == 1 && l.Header != outer[0].Header && l.inLoop(site) {
 					inner = append(inner, l)
 				}
 			}
 			if len(outer) != 1 || len(inner) != 1 {
 				ok, detail = false, "recipient loop / stanza loop not recognised as full-range loops"
-			} else if !inner[0].inLoop(in[0].Store.Block()) || !outer[0].inLoop(inner[0].Header) {
+			} else if !inner[0].inLoop(site) || !outer[0].inLoop(inner[0].Header) {
 				ok, detail = false, "the append is not inside the stanza loop inside the recipient loop"
 			} else if len(inner[0].earlyExits()) != 0 {
 				ok, detail = false, "the stanza loop can be left early"
@@ -344,4 +372,44 @@ func checkTypeGate(p *Program, r *Result) {
 		r.Check(ok, fn.String(), "type-gate", "", "first test is Type == \""+nu.typeConst+"\"; the other edge returns the sentinel", detail)
 	}
 
+}
+
+// accumulatedElement: t is an append chain that starts empty (nil, a fresh struct's field, or
+// the chain itself one iteration earlier) and appends one element per iteration: that element.
+func accumulatedElement(t *Term) (string, bool) {
+	if t == nil {
+		return "", false
+	}
+	if t.Op == "Phi" {
+		for _, a := range t.Args {
+			if a.Op == "Concat" {
+				return accumulatedElement(a)
+			}
+		}
+		return "", false
+	}
+	if t.Op != "Concat" || len(t.Args) != 2 || t.Args[1].Op != "List" || len(t.Args[1].Args) != 1 {
+		return "", false
+	}
+	base := t.Args[0]
+	emptyStart := func(b *Term) bool {
+		switch b.Op {
+		case "Loop", "Nil":
+			return true
+		case "Field":
+			return strings.Contains(b.String(), "New[") // a field of a struct allocated here
+		case "Phi":
+			for _, a := range b.Args {
+				if a.Op != "Loop" && a.Op != "Nil" {
+					return false
+				}
+			}
+			return true
+		}
+		return false
+	}
+	if !emptyStart(base) {
+		return "", false
+	}
+	return t.Args[1].Args[0].String(), true
 }
